@@ -910,7 +910,17 @@ pub fn parse(lex_tokens: &Vec<LexerToken>) -> Result<ParseResult, CompilerError>
                         ended_block = last_left;
                     }
 
-                    if node.get_definition() == Definition::SideEffect && last_left != under_group && node.parent.is_some() {
+                    // a block written after a suffix-operator expression holds that expression as its left child
+                    // (it is not listed by a value or bracket the way `5 [1]` and `(5) [1]` are): what follows
+                    // composes with the suffix operator, the block keeps its place in the tree
+                    let trails_suffix = node.get_definition() == Definition::SideEffect
+                        && last_left != under_group
+                        && node.left.and_then(|left| nodes.get(left)).map(|left: &ParseNode| left.secondary_definition == SecondaryDefinition::UnarySuffix).unwrap_or(false)
+                        && !node.parent.and_then(|parent| nodes.get(parent)).map(|parent: &ParseNode| parent.secondary_definition == SecondaryDefinition::StartGrouping).unwrap_or(false);
+
+                    if trails_suffix {
+                        previous_second_def = SecondaryDefinition::UnarySuffix;
+                    } else if node.get_definition() == Definition::SideEffect && last_left != under_group && node.parent.is_some() {
                         trace!("Changing last left to side effect's parent {:?}", node.parent);
                         last_left = node.parent;
 
@@ -1304,6 +1314,9 @@ pub fn parse(lex_tokens: &Vec<LexerToken>) -> Result<ParseResult, CompilerError>
 
                     if drop {
                         trace!("Previous parser node was a subexpression, dropping this one.");
+                        // a side-effect block that ended before the dropped separator still stands before
+                        // whatever follows
+                        block_before_trivia = ended_block;
                         // retain last left instead of below code setting it to token that isn't being created
                         next_last_left = last_left;
                         (Definition::Drop, None, None, None)
